@@ -148,16 +148,63 @@ func c06Subset(rng *kit.RNG, n int) []int32 {
 }
 
 func c06Configs(rng *kit.RNG) *proto.StreamConfig {
-	switch rng.Intn(4) {
+	switch rng.Intn(6) {
 	case 0:
 		return nil
 	case 1:
 		return &proto.StreamConfig{RetentionMaxMessages: &proto.NullableInt64{Value: int64(1000 + rng.Intn(50))}}
 	case 2:
 		return &proto.StreamConfig{MinIsr: &proto.NullableInt32{Value: 1}, CleanerInterval: &proto.NullableInt64{Value: 3600000}}
-	default:
+	case 3:
 		return &proto.StreamConfig{AutoPauseDisableIfSubscribers: &proto.NullableBool{Value: true}, RetentionMaxBytes: &proto.NullableInt64{Value: 1 << 30}}
 	}
+	// a random subset of ALL the per-stream settings (every field of the
+	// message must survive replay, snapshot and restart), values that keep the
+	// partition inert during a scenario
+	c := &proto.StreamConfig{}
+	i64 := func(v int64) *proto.NullableInt64 { return &proto.NullableInt64{Value: v + int64(rng.Intn(7))} }
+	for c.Size() == 0 {
+		if rng.Chance(1, 3) {
+			c.RetentionMaxBytes = i64(1 << 30)
+		}
+		if rng.Chance(1, 3) {
+			c.RetentionMaxMessages = i64(100000)
+		}
+		if rng.Chance(1, 3) {
+			c.RetentionMaxAge = i64(86400000)
+		}
+		if rng.Chance(1, 3) {
+			c.CleanerInterval = i64(3600000)
+		}
+		if rng.Chance(1, 3) {
+			c.SegmentMaxBytes = i64(1 << 20)
+		}
+		if rng.Chance(1, 3) {
+			c.SegmentMaxAge = i64(86400000)
+		}
+		if rng.Chance(1, 3) {
+			c.CompactMaxGoroutines = &proto.NullableInt32{Value: int32(1 + rng.Intn(4))}
+		}
+		if rng.Chance(1, 3) {
+			c.CompactEnabled = &proto.NullableBool{Value: rng.Bool()}
+		}
+		if rng.Chance(1, 3) {
+			c.AutoPauseTime = i64(86400000)
+		}
+		if rng.Chance(1, 3) {
+			c.AutoPauseDisableIfSubscribers = &proto.NullableBool{Value: rng.Bool()}
+		}
+		if rng.Chance(1, 3) {
+			c.MinIsr = &proto.NullableInt32{Value: 1}
+		}
+		if rng.Chance(1, 2) {
+			c.OptimisticConcurrencyControl = &proto.NullableBool{Value: rng.Bool()}
+		}
+		if rng.Chance(1, 3) {
+			c.Encryption = &proto.NullableBool{Value: false}
+		}
+	}
+	return c
 }
 
 // gen produces the next VALID operation (one whose preconditions — the ones the
@@ -679,7 +726,11 @@ func c06DigestOf(s *Server) c06Digest {
 	for _, st := range streams {
 		sd := c06StreamD{Name: st.GetName(), Subject: st.GetSubject(), Created: st.GetCreationTime().UnixNano(),
 			Tombstoned: st.IsTombstoned(), ResumeAll: st.GetResumeAll()}
-		if cfg := st.GetConfig(); cfg != nil {
+		// the stored configuration itself, not what an accessor chooses to return
+		st.mu.RLock()
+		cfg := st.config
+		st.mu.RUnlock()
+		if cfg != nil {
 			b, _ := cfg.Marshal()
 			sd.Config = fmt.Sprintf("%x", b)
 		} else {
